@@ -174,6 +174,129 @@ fn run_opts(rng: &mut Rng, prog: &Program) -> RunOpts {
 // C02
 // -------------------------------------------------------------------------------------------------
 
+// -------------------------------------------------------------------------------------------------
+// C02 at the net level: messages injected through the runtime handle at absolute timestamps
+// -------------------------------------------------------------------------------------------------
+
+thread_local! {
+    static INJ_LOG: std::cell::RefCell<Vec<(u16, u64)>> = const { std::cell::RefCell::new(Vec::new()) };
+}
+
+struct InjRx;
+impl des::prelude::Module for InjRx {
+    fn handle_message(&mut self, msg: des::prelude::Message) {
+        INJ_LOG.with(|l| l.borrow_mut().push((msg.header().id, des::prelude::SimTime::now().as_nanos() as u64)));
+    }
+}
+
+/// `Runtime<Sim>::add_message_onto` / `handle_message_on`: the message is handled at exactly the given timestamp, a
+/// timestamp before the current time is rejected - before the run (start time 0 or not) and on a paused runtime
+pub fn net_injection_probe(rng: &mut Rng) -> Vec<Finding> {
+    use des::prelude::{Message, Sim};
+    use des::runtime::{Builder, Runtime};
+    use std::panic::{catch_unwind, AssertUnwindSafe};
+    use std::time::Duration;
+    let start = *rng.pick(&[0u64, 5_000_000_000, 1_000_000_000_000_003]);
+    let bucket = if start > 1_000_000_000_000 { 3_600_000_000_000u64 } else { 1_000_000_000 };
+    let delays: Vec<u64> = (0..2 + rng.usize_below(5)).map(|_| *rng.pick(&[0u64, 1, 700_000_000, 2_000_000_000, 9_000_000_001])).collect();
+    let stepped = rng.chance(1, 2);
+    INJ_LOG.with(|l| l.borrow_mut().clear());
+    let mut expected: Vec<(u16, u64)> = Vec::new();
+    let mut f: Vec<Finding> = Vec::new();
+    let res = catch_unwind(AssertUnwindSafe(|| {
+        let mut sim = Sim::new(());
+        sim.node("m", InjRx);
+        let gate = sim.gate("m", "in");
+        let module = sim.get(&"m".into()).expect("module");
+        let mut rt = Builder::seeded(1).quiet().start_time(st(start));
+        #[cfg(feature = "cq")]
+        {
+            rt = rt.cqueue_options(32, Duration::from_nanos(bucket));
+        }
+        let _ = bucket;
+        let mut rt = rt.build(sim.freeze());
+        let mut id = 0u16;
+        let mut inject = |rt: &mut Runtime<Sim<()>>, t: u64, id: u16| {
+            if id % 2 == 0 {
+                rt.add_message_onto(gate.clone(), Message::default().id(id), st(t));
+            } else {
+                rt.handle_message_on(module.clone(), Message::default().id(id), st(t));
+            }
+        };
+        let mut past: Vec<(u64, u64, bool)> = Vec::new();
+        for d in &delays {
+            inject(&mut rt, start + d, id);
+            expected.push((id, start + d));
+            id += 1;
+        }
+        if start > 0 {
+            for _ in 0..2 {
+                let r = catch_unwind(AssertUnwindSafe(|| inject(&mut rt, start - 1, id)));
+                past.push((start, start - 1, r.is_err()));
+                id += 1;
+            }
+        }
+        let result = if stepped {
+            rt.start();
+            rt.dispatch_events_until(st(start + 1_000_000_000));
+            let now = rt.sim_time().as_nanos() as u64;
+            for d in &delays {
+                inject(&mut rt, now + d, id);
+                expected.push((id, now + d));
+                id += 1;
+            }
+            if now > 0 {
+                for _ in 0..2 {
+                    let r = catch_unwind(AssertUnwindSafe(|| inject(&mut rt, now - 1, id)));
+                    past.push((now, now - 1, r.is_err()));
+                    id += 1;
+                }
+            }
+            rt.dispatch_all();
+            rt.finish()
+        } else {
+            rt.run()
+        };
+        (result.is_ok(), past)
+    }));
+    let log = INJ_LOG.with(|l| std::mem::take(&mut *l.borrow_mut()));
+    match res {
+        Err(p) => f.push(("C02", "run-panicked", format!("injecting messages at absolute timestamps (start {start} ns, stepped = {stepped}) unwound with: {}", vcommon::panic_message(&p)))),
+        Ok((ok, past)) => {
+            if !ok {
+                f.push(("C02", "run-error", "the run with injected messages returned an error".into()));
+            }
+            for (now, t, rejected) in past {
+                if !rejected {
+                    f.push(("C02", "past-add-accepted", format!("clock at {now} ns: a message injected for {t} ns (add_message_onto / handle_message_on) was accepted")));
+                }
+            }
+            let mut want = expected.clone();
+            want.sort_by_key(|e| e.1);
+            let mut got = log.clone();
+            got.sort_by_key(|e| (e.1, e.0));
+            let mut want2 = want.clone();
+            want2.sort_by_key(|e| (e.1, e.0));
+            if got != want2 {
+                let bad = got.iter().find(|g| !want2.contains(g));
+                f.push((
+                    "C02",
+                    "now-differs",
+                    format!(
+                        "messages injected at absolute timestamps (start {start} ns, stepped = {stepped}): handled (id, now) {:?}, injected (id, timestamp) {:?}; first odd one {bad:?}",
+                        &got[..got.len().min(8)],
+                        &want2[..want2.len().min(8)]
+                    ),
+                ));
+            }
+            if log.windows(2).any(|w| w[1].1 < w[0].1) {
+                f.push(("C02", "clock-decreased", format!("injected messages were handled at decreasing clock values: {:?}", &log[..log.len().min(8)])));
+            }
+        }
+    }
+    f
+}
+
 pub fn cmd_c02(args: &Args) -> Report {
     let mut rep = Report::new("C02");
     let mut rng = Rng::new(args.stream_seed("c02"));
@@ -185,6 +308,13 @@ pub fn cmd_c02(args: &Args) -> Report {
             6..=8 => 20 + rng.usize_below(max_events / 5 + 1),
             _ => max_events / 2 + rng.usize_below(max_events / 2 + 1),
         };
+        if i % 20 == 0 {
+            rep.count("net_injection_probes", 1);
+            let findings = net_injection_probe(&mut rng);
+            if !report(&mut rep, "C02", findings, &json!({"driver": "desmon", "sub": "c02", "net_injection_probe": true, "note": "re-run the check with the same seed"})) {
+                break;
+            }
+        }
         let tie_heavy = rng.chance(1, 3);
         let prog = gen_program(&mut rng, GenOpts { max_events: size, tie_heavy, past_attempts: true, nonzero_start: true, small_n: false });
         let mut opts = run_opts(&mut rng, &prog);
